@@ -132,6 +132,40 @@ def expandStates (n : Nat) (rot : Fin n → Bool) (σ : Fin n → Bool) : List (
       Nat.testBit i (m - 1 - rank)
     else σ j)
 
+/-! ### the fast paths as the code computes them: enumeration of the expanded states
+
+`_rotate_basis_state` (`unitaries.py:154-181`), line by line against `expandStates` / `rotCoeff`:
+* `sites = np.where(basis != "Z")[0]` — the rotated sites in INCREASING order = `(finRange n).filter rot`; `m = sites.size`;
+* `v = states.unsqueeze(0).repeat(2**m, …)` — `2^m` copies of the sample σ (`List.range (2^m)`, non-rotated `j ↦ σ j`);
+* `v[..., sites] = generate_hilbert_space(size=m).unsqueeze(1)` — copy `i`, site `sites[t]` receives entry `[i, t]` of the
+  size-`m` space, i.e. `spaceBit m i t` = bit `m-1-t` of `i` (big-endian); `t` = position of the site in `sites` =
+  number of rotated sites before it (`rank`);
+* `Ut[i] = np.prod_t Us[t][:, int_sample[t], int_vp[i, t]]` — row = the SAMPLE's bit, column = the expanded state's bit
+  (`rotCoeff`: `us s (σ s) (σ' s)`; the factors `C.one` of the non-rotated sites are exact no-ops);
+* `sites.size == 0`: `v = states.unsqueeze(0)`, `Ut = ones` — `expandStates` gives the single state σ, `rotCoeff` the empty
+  product `C.one`. -/
+
+/-- `Ut, v = _rotate_basis_state(...)` for one sample σ: the expanded states in the code's order, each with its
+coefficient `Ut_i` (`unitaries.py:154-181`). -/
+def rotateBasisState (n : Nat) (us : Fin n → M2 α) (rot : Fin n → Bool) (σ : Fin n → Bool) :
+    List (C α × (Fin n → Bool)) :=
+  (expandStates n rot σ).map (fun v => (rotCoeff n us rot σ v, v))
+
+/-- `rotate_psi_inner_prod(basis, σ)` as coded (`unitaries.py:189-233`): `Ut *= psi(v)`, then
+`torch.sum(Upsi_v, dim=1)`: the left-to-right sum over the ENUMERATED expanded states `v_i` of `Ut_i · ψ(v_i)`. -/
+def rotatePsiInnerProdE (n : Nat) (us : Fin n → M2 α) (rot : Fin n → Bool)
+    (psi : (Fin n → Bool) → C α) (σ : Fin n → Bool) : C α :=
+  (expandStates n rot σ).foldl (fun acc v => C.add acc (C.mul (rotCoeff n us rot σ v) (psi v))) C.zero
+
+/-- `rotate_rho_probs(basis, σ)` as coded (`unitaries.py:236-283`): `Ut = einsum("ib,jb->ijb", Ut, conj(Ut))`,
+`Ut *= rho(v_i, v_j)`, `torch.sum(real(·), dim=(0, 1))`: the double sum (i outer, j inner) over the ENUMERATED
+expanded states of `Re[Ut_i · conj(Ut_j) · ρ(v_i, v_j)]`. -/
+def rotateRhoProbsE (n : Nat) (us : Fin n → M2 α) (rot : Fin n → Bool)
+    (rho : (Fin n → Bool) → (Fin n → Bool) → C α) (σ : Fin n → Bool) : α :=
+  let vs := expandStates n rot σ
+  vs.foldl (fun acc vi => acc + vs.foldl (fun a vj =>
+    a + (C.mul (C.mul (rotCoeff n us rot σ vi) (C.conj (rotCoeff n us rot σ vj))) (rho vi vj)).1) 0) 0
+
 end Unitaries
 end
 
